@@ -113,7 +113,8 @@ Print Assumptions C18_same_unit_explicit.
    after lstrip, [symbol_part] = the stripped remainder *)
 Theorem C18_malformed : forall parse_num d ce dm text,
   (forall c ua, (parse_num (number_part text) = Err EValueError \/
-                 parse_num (number_part text) = Err ETypeError) ->
+                 parse_num (number_part text) = Err ETypeError \/
+                 parse_num (number_part text) = Err EZeroDivision) ->
        parse_qty parse_num d ce dm c ua text = Err EQuantityError) /\
   (forall c ua a s, parse_num (number_part text) = Ok a -> symbol_part text = Some s ->
        lookup_sym d s = None -> parse_qty parse_num d ce dm c ua text = Err EQuantityError) /\
@@ -138,11 +139,13 @@ Theorem C18_only_blank_separates : forall text,
 Proof. exact only_blank_separates. Qed.
 Print Assumptions C18_only_blank_separates.
 
-(* DEVIATION from "malformed text raises QuantityError": an exception of the
-   numeric parser other than TypeError/ValueError passes through
-   (implementation: Quantity('1/0 m') raises ZeroDivisionError) *)
+(* the exceptions the constructor does NOT translate: anything but
+   TypeError / ValueError / ZeroDivisionError of the numeric parser passes
+   through (ZeroDivisionError of Fraction('1/0') did so before repo commit
+   046398b; regression cases in corpus/C18) *)
 Theorem C18_malformed_parser_exception_escapes : forall parse_num d ce dm c ua text e,
-  parse_num (number_part text) = Err e -> e <> EValueError -> e <> ETypeError ->
+  parse_num (number_part text) = Err e ->
+  e <> EValueError -> e <> ETypeError -> e <> EZeroDivision ->
   parse_qty parse_num d ce dm c ua text = Err e.
 Proof. exact parser_exception_escapes. Qed.
 Print Assumptions C18_malformed_parser_exception_escapes.
@@ -189,8 +192,9 @@ Example C18_ex_roundtrip_inner_blank :
     (qty_str toy_show ex_dir (mkQty (-7 # 3) ex_ab)) = Ok (mkQty (-7 # 3) ex_ab).
 Proof. exact ex_inner_blank. Qed.
 Example C18_ex_zero_denominator :
+  toy_parse [49; 47; 48]%N = Err EZeroDivision /\
   parse_qty toy_parse ex_dir no_conv MHEVEN generic UNone [49; 47; 48; 32; 120]%N
-    = Err EZeroDivision.
+    = Err EQuantityError.
 Proof. exact ex_zero_denominator. Qed.
 Example C18_ex_malformed :
   map (parse_qty toy_parse ex_dir no_conv MHEVEN generic UNone)
